@@ -41,3 +41,37 @@ Example C19_saturated_example :
   dt (act_up_d CAnd (D 3 1) (cst [1; 1]) (cst [1; 1])) == 1.
 Proof. vm_compute. split; reflexivity. Qed.
 Print Assumptions C19_saturated_example.
+
+(* ---- formula level: the bounds that formulae and quantifiers STORE (activation + aggregate_bounds) ----
+   A connective formula's stored upper (lower) bound, and the upper bound of a Forall / lower bound of an Exists over it,
+   carry exactly the derivative of the unclamped chain of linear forms, whenever no max/min of the aggregation ties with
+   the world bound -- in particular when body or quantifier are STRICTLY saturated at 0 (Forall) / 1 (Exists). *)
+From LNN.proofs Require Import GradFormulaProofs.
+Theorem C19_formula_upper_gradient : forall c b ws row, clamp01 (dv (inst_pre c b ws false row)) < 1 ->
+  dt (body_bound_d c b ws false row) == dt (inst_pre c b ws false row).
+Proof. exact body_upper_gradient. Qed.
+Print Assumptions C19_formula_upper_gradient.
+Theorem C19_formula_lower_gradient : forall c b ws row, 0 < clamp01 (dv (inst_pre c b ws true row)) ->
+  dt (body_bound_d c b ws true row) == dt (inst_pre c b ws true row).
+Proof. exact body_lower_gradient. Qed.
+Print Assumptions C19_formula_lower_gradient.
+Theorem C19_forall_gradient : forall c b ws rows,
+  (forall row, In row rows -> clamp01 (dv (inst_pre c b ws false row)) < 1) ->
+  dv (act_up_d CAnd (dconst 1) (repeat (dconst 1) (length rows)) (map (body_bound_d c b ws false) rows)) < 1 ->
+  dt (quant_bound_d true c b ws false rows) == dt (dsum (map (inst_pre c b ws false) rows)).
+Proof. exact forall_upper_gradient. Qed.
+Print Assumptions C19_forall_gradient.
+Theorem C19_exists_gradient : forall c b ws rows,
+  (forall row, In row rows -> 0 < clamp01 (dv (inst_pre c b ws true row))) ->
+  0 < dv (act_up_d COr (dconst 1) (repeat (dconst 1) (length rows)) (map (body_bound_d c b ws true) rows)) ->
+  dt (quant_bound_d false c b ws true rows) == dt (dsum (map (inst_pre c b ws true) rows)).
+Proof. exact exists_lower_gradient. Qed.
+Print Assumptions C19_exists_gradient.
+
+(* non-vacuity: Forall over three FALSE-ish instances of And(P,Q) with weights (1, 2): conjunction strictly saturated at 0
+   (pre-activation 1 - 3 = -2), yet the stored upper bound has derivative 3 w.r.t. the body's bias *)
+Example C19_forall_saturated_example :
+  let rows := [[B 0 (1#4); B 0 (1#2)]; [B 0 0; B 0 (1#2)]; [B 0 (1#4); B 0 (1#4)]] in
+  dv (quant_bound_d true CAnd (D 1 1) (cst [1; 2]) false rows) == 0 /\
+  dt (quant_bound_d true CAnd (D 1 1) (cst [1; 2]) false rows) == 3.
+Proof. vm_compute. split; reflexivity. Qed.
